@@ -698,12 +698,22 @@ func runC06Receipts(rc *RC) {
 	}
 	var calls []*rcall
 	n := ch.Range("workload", 1, 4)
+	// a fifth of the runs: the peer's receipts share their message with other payloads - a body, the peer's own request
+	// for a receipt (in front of <received/> or behind it). The callers are patient (contexts that outlive the run) and the
+	// peer acknowledges every message exactly once: every call returns nil.
+	patient := ch.Chance("workload", 1, 5)
 	for i := 0; i < n; i++ {
 		c := &rcall{id: fmt.Sprintf("m%d", i) + c06IDTail(ch), timeout: []time.Duration{30 * time.Millisecond, 300 * time.Millisecond, 2 * time.Second}[ch.Int("workload", 3)], ackStep: -1}
 		if ch.Chance("workload", 1, 3) {
 			c.cancelAt = time.Duration(ch.Range("workload", 0, 20)) * 10 * time.Millisecond
 		}
+		if patient {
+			c.timeout, c.cancelAt = 30*time.Minute, 0
+		}
 		calls = append(calls, c)
+	}
+	if patient {
+		rc.Fire("receipts-with-siblings")
 	}
 	rc.Describe("receipts strategy=%s n=%d pause=%d", strat, n, rc.S.PausePerm)
 	for _, c := range calls {
@@ -759,11 +769,24 @@ func runC06Receipts(rc *RC) {
 				times := 1
 				switch ch.Int("peer", 6) {
 				case 0:
-					rc.Fire("peer-drop")
-					times = 0
+					if !patient {
+						rc.Fire("peer-drop")
+						times = 0
+					}
 				case 1:
-					rc.Fire("peer-dup")
-					times = 2
+					if !patient {
+						rc.Fire("peer-dup")
+						times = 2
+					}
+				}
+				before, after, idAttr := "", "", ""
+				if patient {
+					sib := []string{"", `<body>got it</body>`, `<request xmlns="urn:xmpp:receipts"/>`, `<thread>t1</thread>`}
+					before, after = sib[ch.Int("peer", len(sib))], sib[ch.Int("peer", len(sib))]
+					if before == after {
+						after = ""
+					}
+					idAttr = fmt.Sprintf(` id="pm%d"`, ch.Int("peer", 1000))
 				}
 				c.acks += times
 				for k := 0; k < times; k++ {
@@ -776,7 +799,7 @@ func runC06Receipts(rc *RC) {
 						if c.ackStep < 0 {
 							c.ackStep = rc.S.Steps
 						}
-						e.PeerWrite(fmt.Sprintf(`<message from="peer@example.net/r"><received xmlns="urn:xmpp:receipts" id="%s"/></message>`, escText(id)))
+						e.PeerWrite(fmt.Sprintf(`<message from="peer@example.net/r"%s>%s<received xmlns="urn:xmpp:receipts" id="%s"/>%s</message>`, idAttr, before, escText(id), after))
 						pending--
 					})
 				}
